@@ -244,20 +244,156 @@ def viability_condition(ctx, fi: FunctionInfo):
             return None
         return classify
 
-    props = []
-    for s in sites:
-        if unparse(s.value) != lv:
-            if isinstance(s.value, ast.Constant) and s.value.value is None:
-                continue
-            problems.append(f"best_association assigned from `{unparse(s.value)}`, not from the current combination")
-            continue
-        parts = []
-        for test, pol in cfg.path_conditions(s):
-            p = to_prop(test, classify_at(s))
-            if p is None:
-                return None, [f"unclassifiable condition `{short(test)}`"], sites
-            parts.append(p if pol else p_not(p))
-        props.append(("and", parts) if parts else ("const", True))
+    # path-sensitive symbolic evaluation of the loop body: every flag is a propositional formula over
+    # the atoms above (None / False -> false), an `if` merges the two environments with if-then-else,
+    # `continue` / `break` end the path; the acceptance condition is the disjunction of the path
+    # conditions of `best_association = <current combination>`.  How the flags are plumbed (defaults
+    # overwritten in a branch, nested ifs, one flat condition) does not matter.
+    T, F = ("const", True), ("const", False)
+
+    def pand(*ps):
+        if any(x is None for x in ps):
+            return None
+        return ("and", list(ps))
+
+    def por(*ps):
+        if any(x is None for x in ps):
+            return None
+        return ("or", list(ps))
+
+    def pnot(x):
+        return None if x is None else p_not(x)
+
+    def classify_with(env, use):
+        base = classify_at(use)
+
+        def classify(e):
+            if isinstance(e, ast.Subscript) and isinstance(e.value, ast.Name) and isinstance(e.slice, ast.Constant) and f"{e.value.id}[{e.slice.value!r}]" in env:
+                return env[f"{e.value.id}[{e.slice.value!r}]"]  # a flag kept in a dict of results
+            if isinstance(e, ast.Name) and e.id in env:
+                return env[e.id] if env[e.id] is not None else None
+            if isinstance(e, ast.Constant) and (e.value is None or e.value is False):
+                return F
+            if isinstance(e, ast.Constant) and e.value is True:
+                return T
+            return base(e)
+
+        return classify
+
+    accept = []
+    undecided = []
+
+    def value_prop(v, env, use):
+        if isinstance(v, ast.Constant) and (v.value is None or v.value is False):
+            return F
+        if isinstance(v, ast.Constant) and v.value is True:
+            return T
+        return to_prop(v, classify_with(env, use))
+
+    def walk(stmts, env, pc):
+        alive = T
+        for st in stmts:
+            cur = pand(pc, alive)
+            if isinstance(st, ast.Assign) and len(st.targets) == 1:
+                t, v = st.targets[0], st.value
+                pairs = []
+                if isinstance(t, ast.Name):
+                    pairs = [(t.id, v)]
+                elif isinstance(t, ast.Tuple) and all(isinstance(x, ast.Name) for x in t.elts):
+                    if isinstance(v, ast.Tuple) and len(v.elts) == len(t.elts):
+                        pairs = [(x.id, y) for x, y in zip(t.elts, v.elts)]
+                    elif isinstance(v, ast.BinOp) and isinstance(v.op, ast.Mult) and isinstance(v.left, ast.Tuple) and len(v.left.elts) == 1:
+                        pairs = [(x.id, v.left.elts[0]) for x in t.elts]
+                    else:
+                        pairs = [(x.id, None) for x in t.elts]
+                # flags kept in a dict: d = {"k": flag, ...} / d["k"] = flag / alias = d
+                if isinstance(t, ast.Name) and isinstance(v, ast.Dict) and all(isinstance(k, ast.Constant) for k in v.keys):
+                    env = {k: x for k, x in env.items() if not k.startswith(t.id + "[")}
+                    for k, x in zip(v.keys, v.values):
+                        env[f"{t.id}[{k.value!r}]"] = value_prop(x, env, st)
+                    continue
+                if isinstance(t, ast.Name) and isinstance(v, ast.Name) and any(k.startswith(v.id + "[") for k in env):
+                    env = dict(env)
+                    for k, x in list(env.items()):
+                        if k.startswith(v.id + "["):
+                            env[t.id + k[len(v.id):]] = x
+                    continue
+                if isinstance(t, ast.Subscript) and isinstance(t.value, ast.Name) and isinstance(t.slice, ast.Constant):
+                    env = dict(env)
+                    env[f"{t.value.id}[{t.slice.value!r}]"] = value_prop(v, env, st)
+                    continue
+                for name, val in pairs:
+                    if name == "best_association":
+                        if val is not None and unparse(val) == lv:
+                            if cur is None:
+                                undecided.append(st)
+                            else:
+                                accept.append(cur)
+                        elif val is not None and isinstance(val, ast.Constant) and val.value is None:
+                            pass
+                        else:
+                            problems.append(f"best_association assigned from `{unparse(val) if val is not None else unparse(v)}`, not from the current combination")
+                        continue
+                    env = dict(env)
+                    env[name] = value_prop(val, env, st) if val is not None else None
+            elif isinstance(st, ast.If):
+                pt = to_prop(st.test, classify_with(env, st))
+                e1, a1 = walk(st.body, env, pand(cur, pt))
+                e2, a2 = walk(st.orelse, env, pand(cur, pnot(pt)))
+                merged = dict(env)
+                for name in set(e1) | set(e2):
+                    x, y = e1.get(name, env.get(name)), e2.get(name, env.get(name))
+                    if x is y or (x is not None and y is not None and x == y):
+                        merged[name] = x
+                    elif pt is None or x is None or y is None:
+                        merged[name] = None
+                    else:
+                        merged[name] = ("or", [("and", [pt, x]), ("and", [p_not(pt), y])])
+                env = merged
+                if a1 == T and a2 == T:
+                    pass
+                else:
+                    alive = pand(alive, por(pand(pt, a1), pand(pnot(pt), a2)))
+            elif isinstance(st, ast.Expr) and isinstance(st.value, ast.Call) and isinstance(st.value.func, ast.Attribute) and st.value.func.attr == "update" and isinstance(st.value.func.value, ast.Name) and len(st.value.args) == 1:
+                d, a = st.value.func.value.id, st.value.args[0]
+                env = dict(env)
+                if isinstance(a, ast.Dict) and all(isinstance(k, ast.Constant) for k in a.keys):
+                    for k, x in zip(a.keys, a.values):
+                        env[f"{d}[{k.value!r}]"] = value_prop(x, env, st)
+                elif isinstance(a, ast.Name):
+                    for k, x in list(env.items()):
+                        if k.startswith(a.id + "["):
+                            env[d + k[len(a.id):]] = x
+            elif isinstance(st, (ast.Continue, ast.Break, ast.Return, ast.Raise)):
+                alive = F
+                break
+            elif isinstance(st, (ast.For, ast.While, ast.With, ast.Try)):
+                env = dict(env)
+                for x in ast.walk(st):
+                    if isinstance(x, ast.Name) and isinstance(x.ctx, ast.Store):
+                        env[x.id] = None
+                    if isinstance(x, ast.Assign) and unparse(x.targets[0]) == "best_association":
+                        undecided.append(x)
+            elif isinstance(st, ast.AugAssign) and isinstance(st.target, ast.Name):
+                env = dict(env)
+                env[st.target.id] = None
+        return env, alive
+
+    # flags initialised before the loop (None defaults)
+    env0 = {}
+    for n in walk_no_nested(fn):
+        if n is loop:
+            break
+    pre = [st for st in fn.body if getattr(st, "lineno", 0) < loop.lineno and isinstance(st, ast.Assign)]
+    e0, _ = walk(pre, {}, T)
+    env0 = {k: v for k, v in e0.items()}
+    saved_accept = list(accept)
+    del accept[:]
+    walk(loop.body, env0, T)
+    if undecided:
+        # find a readable reason: the first condition on the way to the site that has no formula
+        return None, [f"unclassifiable condition on the way to `{short(undecided[0])}`"], sites
+    props = accept
     have = ("or", props) if props else ("const", False)
     return have, problems, sites
 
@@ -442,6 +578,15 @@ def check_aggregate_fill(ctx, rule: str):
         if fi.key in seen:
             continue
         seen.add(fi.key)
+        if ci.name in ("BinaryCarver",) or "crosstab" in unparse(fi.node):
+            # counts per (modality, class): a cell without observation is 0 -- pandas.crosstab fills it,
+            # a hand-made groupby / value_counts / unstack pipeline leaves NaN unless it says otherwise
+            cts = calls(fi, "crosstab")
+            alt = [c for c in calls(fi) if call_name(c) in ("unstack", "pivot", "pivot_table")]
+            filled_alt = all(kwarg(c, "fill_value") is not None or (isinstance(cfg_of(ctx, fi).parent(c), ast.Attribute) and cfg_of(ctx, fi).parent(c).attr == "fillna") for c in alt)
+            okc = bool(cts) or (bool(alt) and filled_alt)
+            ctx.ob(rule, construct(fi, "a (modality, class) cell without observation counts 0, not NaN"), okc, loc(fi, (cts or alt or [None])[0]),
+                   "" if okc else "the table of counts is not pandas.crosstab and does not fill empty cells: a group holding such a modality gets a NaN / degenerate target rate, which sorts last and lets the train/dev rank test pass when it should not")
         rs = [c for c in calls(fi, "reindex")]
         if not rs:
             ctx.ob(rule, construct(fi, "aggregate table is extended to the full modality list"), False, loc(fi),
